@@ -442,6 +442,8 @@ type sut struct {
 	logs     []logID
 	maxConns int
 	plan     *faultPlan // non-nil: the database is opened through the fault-injecting driver
+	dsn      string     // data source name; default: the plain path of witness.db in dir
+	shared   bool       // a second instance on another sut's file: close leaves the directory alone
 	wkey     *keys.Key
 	wv       *witnessx.WitnessVerifier
 }
@@ -500,7 +502,10 @@ func newSUT(logs []logID, wkey *keys.Key, maxConns int, useHTTP, faults bool) (*
 // open (re)opens the database file and builds witness, server and router on it.
 func (s *sut) open() error {
 	var err error
-	dsn := filepath.Join(s.dir, "witness.db")
+	dsn := s.dsn
+	if dsn == "" {
+		dsn = filepath.Join(s.dir, "witness.db")
+	}
 	drv := "sqlite3"
 	if s.plan != nil {
 		drv = faultDriverName
@@ -550,8 +555,37 @@ func (s *sut) close() {
 	if s.db != nil {
 		s.db.Close()
 	}
+	if s.shared {
+		return
+	}
 	faultPlans.Delete(filepath.Join(s.dir, "witness.db"))
+	faultPlans.Delete(s.dsn)
 	os.RemoveAll(s.dir)
+}
+
+// newTwins builds two witness instances (same configuration, same key) on ONE database file, each with its
+// own database/sql handle limited to one connection as deployed: a is opened through the fault-injecting
+// driver (so that it can be paused between its read and its write), b through the plain sqlite3 driver.
+// busyMs is sqlite's busy timeout for both handles.
+func newTwins(logs []logID, wkey *keys.Key, busyMs int) (a, b *sut, err error) {
+	dir, err := os.MkdirTemp(scratchRoot(), "c19-")
+	if err != nil {
+		return nil, nil, err
+	}
+	dsn := fmt.Sprintf("file:%s?_busy_timeout=%d", filepath.Join(dir, "witness.db"), busyMs)
+	a = &sut{dir: dir, dsn: dsn, wkey: wkey, logs: logs, maxConns: 1, plan: &faultPlan{}}
+	b = &sut{dir: dir, dsn: dsn, wkey: wkey, logs: logs, maxConns: 1, shared: true}
+	for _, s := range []*sut{a, b} {
+		if err = s.open(); err == nil {
+			s.wv, err = witnessx.NewWitnessVerifier(wkey.Pub)
+		}
+		if err != nil {
+			b.close()
+			a.close()
+			return nil, nil, err
+		}
+	}
+	return a, b, nil
 }
 
 // reply is what one call returned: ok = success (nil error / HTTP 200), body = returned bytes.
